@@ -233,3 +233,85 @@ def pc_has(pred, truth=True):
                 return t == truth
         return None
     return f
+
+# ---------------------------------------------------------------------------------------
+# The finite partition of an encoder's input.
+#
+# Which components an encoder emits can depend on its input only through the presence conditions of the OPTIONAL / DEFAULT
+# components: `Option` fields (Some / None) and `bool` fields (true / false) of the value being encoded.  Their product is a
+# finite partition of the input domain; the encoder is interpreted once per member, with those fields fixed to variant / literal
+# knowledge (everything else stays symbolic), and the emitted component list of every member is compared with the reference shape
+# for that member.  How the code gets there - conditional pushes, nested conditions, a `match` on a tuple of the fields,
+# `vec![..]` per arm, `extend(Option)` - makes no difference: every condition on a fixed field is decided by the interpreter, and a
+# combination the code forgot (or handles only under an unrelated condition) is evaluated like every other one.
+
+def partition_fields(f, ty):
+    """[(field, 'bool' | 'option')] of struct type `ty` (a type string, generic arguments ignored), in declaration order"""
+    it = f.items.get(ty.split('<', 1)[0])
+    if it is None or it.get('kind') != 'Struct' or len(it.get('variants', ())) != 1:
+        return None
+    out = []
+    for fl in it['variants'][0]['fields']:
+        if fl['ty'] == 'bool':
+            out.append((fl['name'], 'bool'))
+        elif fl['ty'].startswith('core::option::Option<'):
+            out.append((fl['name'], 'option'))
+    return out
+
+def partition_cases(fields):
+    """every member of the partition: a tuple of (field, kind, True | False) - True = `true` / `Some`"""
+    import itertools
+    return [tuple((n, k, v) for (n, k), v in zip(fields, vs)) for vs in itertools.product((True, False), repeat=len(fields))]
+
+def case_value(base, name, kind, v):
+    """the term a fixed field holds: a literal, `None`, or `Some` of the payload the field would have (so that the reference's
+    source predicates - "the content is the payload of this field" - read it as they read the symbolic field)"""
+    if kind == 'bool':
+        return ('lit', v)
+    return ('ctor', 'Some', (('variant', ('field', base, name), 'Some', 0),)) if v else ('ctor', 'None', ())
+
+def case_atoms(base, case):
+    """the member of the partition as path-condition atoms about `base` (what a path that tested every field would have recorded)"""
+    return tuple(((('field', base, n), v) if k == 'bool' else (('is', ('field', base, n), 'Some'), v)) for n, k, v in case)
+
+def case_name(case):
+    return ', '.join('%s=%s' % (n, (str(v).lower() if k == 'bool' else ('Some' if v else 'None'))) for n, k, v in case) or 'plain'
+
+class CaseHook:
+    """Interpreter field hook: reading field `name` of a term satisfying `is_base` yields the value the case fixes it to.  Remembers
+    the bases it answered for (`bases`), so that the caller can state the case as path-condition atoms about them."""
+    def __init__(self, is_base, case):
+        self.is_base, self.fixed, self.bases = is_base, {n: (k, v) for n, k, v in case}, []
+    def __call__(self, base, name, st):
+        if name in self.fixed and self.is_base(base):
+            if base not in self.bases:
+                self.bases.append(base)
+            k, v = self.fixed[name]
+            return case_value(base, name, k, v)
+        return None
+    def env(self, env):
+        """a parameter taken apart in the signature is bound without a field read: the same substitution on the initial bindings"""
+        out = {}
+        for b, t in env.items():
+            if t[0] == 'field' and t[2] in self.fixed and self.is_base(t[1]):
+                r = self(t[1], t[2], None)
+                out[b] = r
+            else:
+                out[b] = t
+        return out
+
+def undecided_optionals(ref, pc):
+    """names of the OPT items of a reference shape (at any depth) whose presence the path condition does not decide"""
+    out = []
+    def rec(r):
+        if r[0] == 'OPT':
+            if r[1](pc) is None:
+                out.append(r[3] or '?')
+            rec(r[2])
+        elif r[0] == 'C':
+            for x in r[3]:
+                rec(x)
+        elif r[0] == 'MANY':
+            rec(r[2])
+    rec(ref)
+    return out
